@@ -118,6 +118,12 @@ class OrderTaint:
         if t[2] != "closure" or t[3] not in self.F.bodies:
             return True
         kb = self.F.bodies[t[3]]
+        # a key that went through a many-to-one transformation is not total either: elements that collide keep their incoming order
+        LOSSY = ("::to_lowercase", "::to_uppercase", "::to_ascii_lowercase", "::to_ascii_uppercase", "::len", "::trim", "::trim_start",
+                 "::trim_end", "::count", "::is_empty", "::kind", "::get_kind", "::to_lowercase_lossy", "::chars", "::first", "::last")
+        for _, kc in kb.calls():
+            if (kc.get("r") or kc.get("f") or "").endswith(LOSSY):
+                return False
         consts = 0
         other = 0
         for r in dataflow.roots(kb, 0):
